@@ -204,7 +204,7 @@ fn parse_order(cx: &mut Ctx, src: &sm::Src) {
     cx.rule(rule, "CFormatSpec::parse reads mapping key, flags, width, precision, length modifier and conversion type in that order from the same iterator; the template splitters treat `%%` as a literal percent, flush the pending literal before a specifier and report an incomplete trailing `%` at index + 1");
     cx.floor(rule, 4);
     let Some(m) = src.method("CFormatSpec", "parse") else { return cx.anchor_missing(rule, "CFormatSpec::parse") };
-    let want = "{letmapping_key=parse_spec_mapping_key(iter)?;letflags=parse_flags(iter);letmin_field_width=parse_quantity(iter)?;letprecision=parse_precision(iter)?;consume_length(iter);let(format_type,format_char)=parse_format_type(iter)?;Ok(CFormatSpec{mapping_key,flags,min_field_width,precision,format_type,format_char,})}";
+    let want = "{letmapping_key=parse_spec_mapping_key(iter)?;letflags=parse_flags(iter);letmin_field_width=parse_quantity(iter)?;letprecision=parse_precision(iter)?;consume_length(iter);let(format_type,format_char)=parse_format_type(iter)?;Ok(CFormatSpec{flags,format_char,format_type,mapping_key,min_field_width,precision,})}";
     if sm::tsc(&m.block) == want {
         cx.ok(rule, "mapping key, flags, width, precision, length, type — in this order");
     } else {
@@ -221,7 +221,7 @@ fn parse_order(cx: &mut Ctx, src: &sm::Src) {
             cx.fail(rule, &format!("{}/{}", rule, k), &src.rel, "`%%` is not turned into a literal percent");
         }
     }
-    if t.matches("returnErr(CFormatError{typ:CFormatErrorType::IncompleteFormat,index:index+1,})").count() == 2 {
+    if t.matches("returnErr(CFormatError{index:index+1,typ:CFormatErrorType::IncompleteFormat,})").count() == 2 {
         cx.ok(rule, "a trailing `%` is IncompleteFormat at index + 1 (text and bytes)");
     } else {
         cx.fail(rule, &format!("{}/incomplete", rule), &src.rel, "a trailing `%` is not reported as IncompleteFormat at index + 1 in both splitters");
